@@ -437,6 +437,24 @@ fn c03_build(ctx: &Ctx, tier: Tier, seed: u64) -> Vec<Job<'static>> {
                             until: if heal { Trigger::Plus(Box::new(c.clone()), 2_500_000) } else { Trigger::Never },
                         });
                     }
+                    // "keeps serving other transactions meanwhile": a third entity on healthy links;
+                    // half a second after the cut the sender (and, the other way round, the
+                    // receiver) is asked for a transfer with it, which has to complete
+                    let third = x.ents[0].clone();
+                    x.ents.push(third);
+                    for (pi, (s, d)) in [(0usize, 2usize), (2, 1)].into_iter().enumerate() {
+                        x.puts.push(Put {
+                            src: s,
+                            dst: d,
+                            unack: false,
+                            src_name: format!("canary{}.bin", pi),
+                            dst_name: format!("canary{}_out.bin", pi),
+                            file: Some(FileSpec { size: 2 * x.ents[0].seg as u64 + 1, class: Content::Rand, cseed: 77 + pi as u64 }),
+                            reqs: vec![],
+                            msgs: vec![],
+                            at: Trigger::Plus(Box::new(c.clone()), 500_000),
+                        });
+                    }
                     sweep.push(x);
                 }
             }
@@ -445,12 +463,12 @@ fn c03_build(ctx: &Ctx, tier: Tier, seed: u64) -> Vec<Job<'static>> {
     let sweep = std::sync::Arc::new(sweep);
     let sw = sweep.clone();
     let cut = Job {
-        label: "cut-point sweep: blackout of either/both directions after every PDU, permanent and healing".into(),
+        label: "cut-point sweep: blackout of either/both directions after every PDU, permanent and healing; two canary transfers with a third entity on healthy links half a second after the cut".into(),
         n: sweep.len(),
         gen: Box::new(move |i| sw[i].clone()),
     };
     let wild = Job {
-        label: "unbounded random loss/dup/delay, stalls and clock jumps, canary put on the reverse direction".into(),
+        label: "unbounded random loss/dup/delay, blackouts, stalls and clock jumps".into(),
         n: n_wild,
         gen: Box::new(move |i| {
             let mut rng = Rng::new(mix(seed ^ 0xC03A, i as u64));
